@@ -39,7 +39,7 @@ impl<T> VIter<T> {
         requires forall|x: T| f.requires((x,)),
         ensures forall|g: spec_fn(T) -> U| (forall|x: T, y: U| f.ensures((x,), y) ==> y == g(x)) ==> r@ == #[trigger] self@.map_values(g),
             // relational form (closures whose result is not a function of the argument, e.g. a send that may fail)
-            r@.len() == self@.len(), forall|i: int| 0 <= i < r@.len() ==> f.ensures((self@[i],), #[trigger] r@[i]),
+            r@.len() == self@.len(), forall|i: int| #![trigger self@[i]] #![trigger r@[i]] 0 <= i < r@.len() ==> f.ensures((self@[i],), r@[i]),
     { unimplemented!() }
 
     // IntoIterator::into_iter of an iterator is the iterator
